@@ -187,3 +187,132 @@ impl<T: std::fmt::Debug> std::fmt::Debug for Arc<T> {
         self.0.fmt(f)
     }
 }
+
+/// Mutex used by `deadpool-postgres`' statement cache registry under
+/// `--cfg deadpool_verif`: a thin wrapper around [`std::sync::Mutex`] which
+/// reports lock and unlock to the simulator as schedule points.
+#[derive(Debug, Default)]
+pub struct SimMutex<T>(Mutex<T>);
+
+/// Guard returned by [`SimMutex::lock`].
+#[derive(Debug)]
+pub struct SimMutexGuard<'a, T>(Option<std::sync::MutexGuard<'a, T>>);
+
+impl<T> SimMutex<T> {
+    /// See [`std::sync::Mutex::new`].
+    pub fn new(value: T) -> Self {
+        Self(Mutex::new(value))
+    }
+    /// See [`std::sync::Mutex::lock`].
+    pub fn lock(&self) -> std::sync::LockResult<SimMutexGuard<'_, T>> {
+        point("pg.caches.pre_lock");
+        lock_point("pg.caches.lock", || is_locked(&self.0));
+        match self.0.lock() {
+            Ok(guard) => Ok(SimMutexGuard(Some(guard))),
+            Err(e) => Err(std::sync::PoisonError::new(SimMutexGuard(Some(
+                e.into_inner(),
+            )))),
+        }
+    }
+}
+
+impl<T> std::ops::Deref for SimMutexGuard<'_, T> {
+    type Target = T;
+    fn deref(&self) -> &T {
+        self.0.as_ref().unwrap()
+    }
+}
+
+impl<T> std::ops::DerefMut for SimMutexGuard<'_, T> {
+    fn deref_mut(&mut self) -> &mut T {
+        self.0.as_mut().unwrap()
+    }
+}
+
+impl<T> Drop for SimMutexGuard<'_, T> {
+    fn drop(&mut self) {
+        drop(self.0.take());
+        point("pg.caches.post_unlock");
+    }
+}
+
+/// Read-write lock used by `deadpool-postgres`' statement cache under
+/// `--cfg deadpool_verif`: a thin wrapper around [`std::sync::RwLock`] which
+/// reports every acquisition and release to the simulator.
+#[derive(Debug, Default)]
+pub struct SimRwLock<T>(std::sync::RwLock<T>);
+
+/// Guard returned by [`SimRwLock::read`].
+#[derive(Debug)]
+pub struct SimRwLockReadGuard<'a, T>(Option<std::sync::RwLockReadGuard<'a, T>>);
+
+/// Guard returned by [`SimRwLock::write`].
+#[derive(Debug)]
+pub struct SimRwLockWriteGuard<'a, T>(Option<std::sync::RwLockWriteGuard<'a, T>>);
+
+impl<T> SimRwLock<T> {
+    /// See [`std::sync::RwLock::new`].
+    pub fn new(value: T) -> Self {
+        Self(std::sync::RwLock::new(value))
+    }
+    /// See [`std::sync::RwLock::read`].
+    pub fn read(&self) -> std::sync::LockResult<SimRwLockReadGuard<'_, T>> {
+        point("pg.cache.pre_read");
+        lock_point("pg.cache.read", || {
+            matches!(self.0.try_read(), Err(std::sync::TryLockError::WouldBlock))
+        });
+        match self.0.read() {
+            Ok(guard) => Ok(SimRwLockReadGuard(Some(guard))),
+            Err(e) => Err(std::sync::PoisonError::new(SimRwLockReadGuard(Some(
+                e.into_inner(),
+            )))),
+        }
+    }
+    /// See [`std::sync::RwLock::write`].
+    pub fn write(&self) -> std::sync::LockResult<SimRwLockWriteGuard<'_, T>> {
+        point("pg.cache.pre_write");
+        lock_point("pg.cache.write", || {
+            matches!(self.0.try_write(), Err(std::sync::TryLockError::WouldBlock))
+        });
+        match self.0.write() {
+            Ok(guard) => Ok(SimRwLockWriteGuard(Some(guard))),
+            Err(e) => Err(std::sync::PoisonError::new(SimRwLockWriteGuard(Some(
+                e.into_inner(),
+            )))),
+        }
+    }
+}
+
+impl<T> std::ops::Deref for SimRwLockReadGuard<'_, T> {
+    type Target = T;
+    fn deref(&self) -> &T {
+        self.0.as_ref().unwrap()
+    }
+}
+
+impl<T> Drop for SimRwLockReadGuard<'_, T> {
+    fn drop(&mut self) {
+        drop(self.0.take());
+        point("pg.cache.post_unlock");
+    }
+}
+
+impl<T> std::ops::Deref for SimRwLockWriteGuard<'_, T> {
+    type Target = T;
+    fn deref(&self) -> &T {
+        self.0.as_ref().unwrap()
+    }
+}
+
+impl<T> std::ops::DerefMut for SimRwLockWriteGuard<'_, T> {
+    fn deref_mut(&mut self) -> &mut T {
+        self.0.as_mut().unwrap()
+    }
+}
+
+impl<T> Drop for SimRwLockWriteGuard<'_, T> {
+    fn drop(&mut self) {
+        drop(self.0.take());
+        point("pg.cache.post_unlock");
+    }
+}
